@@ -288,13 +288,31 @@ def newestLocalId : FS → Nat
     | none => newestLocalId r
   | _ :: r => newestLocalId r
 
+/-- the highest id among the savepoints that exist in the file store (those with a `job.savepoint`; 0 if none) -/
+def newestSavepointId : FS → Nat
+  | [] => 0
+  | (.spJob id, _) :: r => max id (newestSavepointId r)
+  | _ :: r => newestSavepointId r
+
+/-- does `LoadCheckpoint` also keep the id counter above the ids of existing savepoints (their directories are named by
+the checkpoint id alone)? Regenerated: `Facts.savepointIdsCounted` (0 = the code as it is) -/
+def countSavepoints : Bool := Facts.savepointIdsCounted = 1
+
+/-- the id counter a job started from savepoint snapshot `s` on storage `fs` begins with -/
+def startCounter (cs : Bool) (fs : FS) (s : JobSnap) : Nat :=
+  max s.id (max (newestLocalId fs) (if cs then newestSavepointId fs else 0))
+
 /-- `Store.LoadCheckpoint` with a savepoint URI, including the store it leaves: the loaded snapshot is the completed
 one and the id counter is `max(savepoint id, newest job snapshot id still in the file store)` (D49: job snapshots
-written after the savepoint may still be there, their ids are not handed out again) -/
-def startStore (L : Lister) (fs : FS) (sid : Nat) : FS × Option (JobSnap × Store) :=
+written after the savepoint may still be there, their ids are not handed out again), with `cs` also the newest
+existing savepoint id -/
+def startStoreWith (cs : Bool) (L : Lister) (fs : FS) (sid : Nat) : FS × Option (JobSnap × Store) :=
   match loadFromSavepoint L fs sid with
-  | (fs', some s) => (fs', some (s, { pending := none, ckptId := max s.id (newestLocalId fs') }))
+  | (fs', some s) => (fs', some (s, { pending := none, ckptId := startCounter cs fs' s }))
   | (fs', none) => (fs', none)
+
+def startStore (L : Lister) (fs : FS) (sid : Nat) : FS × Option (JobSnap × Store) :=
+  startStoreWith countSavepoints L fs sid
 
 /-- removal of the obsolete job snapshot files after a publication: the paths are recomputed from the obsolete
 ids (`filepath.Join(checkpointsPath, "job-"+pathSegment(id)+".snapshot")`), whatever file the snapshot was loaded
